@@ -150,6 +150,17 @@ Theorem C36_inline_merge_interleaves : forall (A : Type) (a b : list A) ds out r
 Proof. intros A. exact (@merge_interleaves A). Qed.
 Print Assumptions C36_inline_merge_interleaves.
 
+(* TopLevelKeyedStreamOrderHook ([front] = false) / TopLevelPartiallyOrderedStreamHook
+   ([front] = true): nothing, or exactly one item of exactly one key -- any position resp. the
+   front of that key's queue --, every other entry untouched, for every iteration order; a
+   picked observation (forced) releases exactly that one item *)
+Theorem C36_top_keyed_sound : forall (A K : Type) front force (m : list (K * list A)) ds rel m' rest nt,
+  decide_top_keyed front force m ds = Ok (rel, m', rest, nt) ->
+  (rel = [] /\ m' = m /\ nt = false /\ (force = true -> count_ne m = 0))
+  \/ (nt = true /\ TakesOne front m rel m').
+Proof. intros A K. exact (@top_keyed_sound A K). Qed.
+Print Assumptions C36_top_keyed_sound.
+
 (* non-vacuity: the hypotheses are satisfiable by non-trivial values *)
 Example C36_ex_noorder :
   decide_noorder false [10; 20; 30] [0; 1; 0; 1] = Ok ([20; 30], [10], [], true).
